@@ -810,6 +810,16 @@ def run(scenario, world):
                     rows.append({'ID': 'id%d' % i, 'Time': np.nan,
                                  'Observable': 'cov%d' % c,
                                  'Value': cov_vals[(i + c) % len(cov_vals)]})
+            if op.get('ghost'):
+                # one more individual without a single usable measurement
+                # (a NaN value): it still counts as an individual
+                rows.append({'ID': 'id%d' % kk, 'Time': 1.0,
+                             'Observable': outs[0], 'Value': np.nan})
+                for c in range(pm.n_covariates()):
+                    rows.append({'ID': 'id%d' % kk, 'Time': np.nan,
+                                 'Observable': 'cov%d' % c,
+                                 'Value': cov_vals[c % len(cov_vals)]})
+                kk += 1
             df = pd.DataFrame(rows)
             r = call(ctrl.set_population_model, pm)
             if is_exc(r):
@@ -1176,6 +1186,8 @@ def _generate(rng, index, tier):
             op['n_ids'] = rng.randint(1, 4)
             if o == 'compose_hier' and rng.random() < 0.3:
                 op['labels'] = rng.choice(['none', 'mixed', 'reuse'])
+            if o == 'compose_controller' and rng.random() < 0.3:
+                op['ghost'] = True
         elif o == 'compose_ll':
             if rng.random() < 0.7:
                 op['fix'] = [rng.randint(0, 40)
